@@ -710,11 +710,11 @@ ssize_t ZCK_PUBLIC_API zck_get_chunk_comp_data(zckChunk *idx, char *dst,
     ALLOCD_INT(zck, dst);
 
     /* Make sure chunk size is valid */
-    if(zck_get_chunk_size(idx) < 0)
+    if(zck_get_chunk_comp_size(idx) < 0)
         return -1;
 
-    /* If the chunk is empty, we're done */
-    if(zck_get_chunk_size(idx) == 0)
+    /* If the chunk has no stored data, we're done */
+    if(zck_get_chunk_comp_size(idx) == 0)
         return 0;
 
     /* Make sure requested chunk has a beginning */
